@@ -4,7 +4,7 @@ From ZV.Gen Require Import Gen_Seek.
 From ZV.Seek Require Import SeekTable SeekBase SeekTableProofs SeekLoadProofs SeekLoadSafe SeekWriteProofs SeekWriter.
 From ZV.Seek Require Import SeekReader SeekReaderProofs SeekEndToEnd SeekCompressProofs SeekIntegrity.
 From ZV.Seek Require Import SeekReaderOld SeekBeyond SeekExact.
-From ZV.Seek Require Import SeekLoadConverse SeekFailed.
+From ZV.Seek Require Import SeekLoadConverse SeekFailed SeekInput SeekInputProofs.
 Import ListNotations.
 Local Open Scope N_scope.
 
@@ -406,6 +406,46 @@ Theorem failed_states_are_nowhere : forall t st target,
   restart_seek_failed t false st target = nowhere (r_doff st) (d_frame st) (d_prod st) (d_fin st) (r_acc st) (r_trace st).
 Proof. intros. repeat split. Qed.
 Print Assumptions failed_states_are_nowhere.
+(* a RE-INITIALISED object (ZSTD_seekable_init* again, on another archive: curFrame = (U32)-1, decompressedOffset = (U64)-1,
+   decoder / zs->in / hash state left over from the previous archive [prev]): the state satisfies the invariant of the new
+   table, and the first read inside the new content is exactly the read a fresh object makes - so range_read_correct, stated
+   from rinit, covers re-initialised objects (gap listed by round 2) *)
+Theorem reinitialised_reader_reads_like_fresh : forall H content BUFF NOPROG t sfc prev dst len offset orc,
+  wf_table t -> offset < e_d (ent t (t_len t)) ->
+  seekable_decompress H content BUFF NOPROG t sfc (reinit_state prev) dst len offset orc =
+  seekable_decompress H content BUFF NOPROG t sfc rinit dst len offset orc.
+Proof. exact reinit_reads_like_fresh. Qed.
+Print Assumptions reinitialised_reader_reads_like_fresh.
+Theorem reinitialised_reader_state_consistent : forall content t prev, wf_table t -> Inv content t (reinit_state prev).
+Proof. exact reinit_keeps_invariant. Qed.
+Print Assumptions reinitialised_reader_state_consistent.
 (* the hypotheses are satisfiable: the example table of round 1 (3 frames) and offset 0 *)
 Example failed_call_hypotheses_satisfiable : wf_table ex_t0 /\ 0 < e_d (ent ex_t0 (t_len ex_t0)).
 Proof. split; [exact ex_t0_wf|vm_compute; reflexivity]. Qed.
+
+(* ---- the INPUT side of ZSTD_seekable_decompress (SeekInput.v: the source's read head, zs->in, the restart branch's seek, the
+   refill with MIN(hint, SEEKABLE_BUFF_SIZE), failed seeks and reads).  EVERY history of calls on one object, every file, every
+   decoder behaviour (input bytes consumed per call, size hints), every cache decision (restart wanted or not), every pattern
+   of failing seeks and of reads that fail after moving the read head by any amount: between two decoder resets the decoder
+   receives exactly the file's bytes from the compressed offset the restart seeked to, in order, without gap or repetition -
+   whatever stream it was in before ([cur] arbitrary).  Fix 9b1486b is what makes it true. *)
+Theorem input_stream_is_the_file : forall BUFF file calls cur,
+  stream_ok file cur (snd (in_history BUFF file false calls iinit)).
+Proof. exact SeekInputProofs.input_stream_is_the_file. Qed.
+Print Assumptions input_stream_is_the_file.
+(* witness for the code before 9b1486b (keep_claim = true): 20-byte file, the second refill fails after moving the read head
+   by 2, the next call for the same frame continues: the decoder, having consumed file[0..5), is handed 7 8 9 10 where
+   5 6 7 8 follow *)
+Theorem failed_read_before_fix_skips_bytes :
+  In (Feed 0 5 [7; 8; 9; 10]) (snd (in_history 16 in_ex_file true in_ex_calls iinit)) /\
+  sliceN in_ex_file 5 4 = [5; 6; 7; 8] /\
+  ~ stream_ok in_ex_file None (snd (in_history 16 in_ex_file true in_ex_calls iinit)).
+Proof. exact SeekInputProofs.failed_read_before_fix_skips_bytes. Qed.
+Print Assumptions failed_read_before_fix_skips_bytes.
+(* the same history on the current code (computed): the second call seeks to the frame start again *)
+Theorem failed_read_after_fix_restarts :
+  snd (in_history 16 in_ex_file false in_ex_calls iinit) =
+  [IoSeek 0 true; Feed 0 0 []; IoRead 0 5 true; Feed 0 0 [0;1;2;3;4]; IoRead 5 4 false;
+   IoSeek 0 true; Feed 0 0 []; IoRead 0 4 true; Feed 0 0 [0;1;2;3]; IoRead 4 3 true].
+Proof. exact SeekInputProofs.failed_read_after_fix_restarts. Qed.
+Print Assumptions failed_read_after_fix_restarts.
